@@ -120,6 +120,14 @@ def region_case(draw):
     cur_o = [e["o"] for e in els]
     h = math.radians(draw(st.sampled_from([0.0, 90.0, 33.0, -120.0])))
     calls = [{"k": "seg", "rel": True, "body": [14 * math.cos(h), 14 * math.sin(h)], "w": None, "o": None}]
+    if draw(st.booleans()):
+        # interpolated width/offset already on the first section (the initial cap then sits on a tilted centre line)
+        w, o = draw(specs_for(els, cur_w, cur_o))
+        if w is not None:
+            cur_w = [end_value(s) for s in w]
+        if o is not None:
+            cur_o = [end_value(s) for s in o]
+        calls[0]["w"], calls[0]["o"] = w, o
     prev = "seg"
     for _ in range(draw(st.integers(1, 4))):
         k = draw(st.sampled_from(["corner", "turn", "turn", "seg", "cubic_smooth", "quad_smooth", "arc", "param"]))
